@@ -23,10 +23,13 @@ inductive HasType (coded : Bool) : Expr → Ty → Prop
   fields; "opaque" for arrays and structures) or that of the `let` expression -/
   | lparam {l t} : HasType coded (.lparam l t) t.toTy
   | lphys {l t} : HasType coded (.lphys l t) t.toTy
-  | lvirt {l d τ} : HasType coded d τ → HasType coded (.lvirt l d) τ
-  | cvirt {l d τ} : HasType coded d τ → HasType coded (.cvirt l d) τ
-  | builtinB {l} : HasType coded (.builtin l true) .bool
-  | builtinI {l} : HasType coded (.builtin l false) .int
+  | lparamArr {l} : HasType coded (.lparamArr l) .opaque
+  | lvirt {l df d τ} : HasType coded d τ → HasType coded (.lvirt l df d) τ
+  | cvirt {l df d τ} : HasType coded d τ → HasType coded (.cvirt l df d) τ
+  /-- `$is_statically_sized` is a boolean, `$static_size_in_bits` an integer; `$next` has no
+  type outside a field location (where `synthetics` has replaced it) -/
+  | builtinB {l} : HasType coded (.builtin l .isStaticallySized) .bool
+  | builtinI {l} : HasType coded (.builtin l .staticSizeInBits) .int
   /-- "`*`, `+`, `-` require two integer arguments, and return an integer" -/
   | arith {l op a b} : op.isArith → HasType coded a .int → HasType coded b .int →
       HasType coded (.bin l op a b) .int
@@ -56,28 +59,41 @@ inductive HasType (coded : Bool) : Expr → Ty → Prop
   | upper {l a} : HasType coded a .int → HasType coded (.fn l .upper [a]) .int
   | lower {l a} : HasType coded a .int → HasType coded (.fn l .lower [a]) .int
 
-/-- The checker accepted the expression with type τ: no error, no crash. -/
-def Ok (r : Res) (τ : Ty) : Prop := r.errs = [] ∧ r.crash = none ∧ r.ty = τ
+/-- The checker accepted the expression with type τ: no error. -/
+def Ok (r : Res) (τ : Ty) : Prop := r.errs = [] ∧ r.ty = τ
 
 instance (r : Res) (τ : Ty) : Decidable (Ok r τ) := by unfold Ok; infer_instance
 
-/-- One of the two expression forms on which the Python raises by itself, or a comparison /
-`?:` with an operand whose own check failed (`.type is None`), occurs in `e` (looking through
-references). -/
-inductive CrashForm : Expr → Prop
-  | cother {l} : CrashForm (.cother l)
-  | lparamArr {l} : CrashForm (.lparamArr l)
-  | cmpAbsentL {l op a b} : op.isCmp = true → (tc a).ty = .absent → CrashForm (.bin l op a b)
-  | cmpAbsentR {l op a b} : op.isCmp = true → (tc b).ty = .absent → CrashForm (.bin l op a b)
-  | chAbsent {l c t f} : (tc c).ty = .absent ∨ (tc t).ty = .absent ∨ (tc f).ty = .absent →
-      CrashForm (.choice l c t f)
-  | cvirt {l d} : CrashForm d → CrashForm (.cvirt l d)
-  | lvirt {l d} : CrashForm d → CrashForm (.lvirt l d)
-  | binL {l op a b} : CrashForm a → CrashForm (.bin l op a b)
-  | binR {l op a b} : CrashForm b → CrashForm (.bin l op a b)
-  | chC {l c t f} : CrashForm c → CrashForm (.choice l c t f)
-  | chT {l c t f} : CrashForm t → CrashForm (.choice l c t f)
-  | chF {l c t f} : CrashForm f → CrashForm (.choice l c t f)
-  | arg {l f args a} : a ∈ args → CrashForm a → CrashForm (.fn l f args)
+mutual
+/-- The expression and everything it is built from, each with the module file it is written
+in: syntactic sub-expressions (`function.args`, recursively) and, through references, the
+definitions of the virtual fields it mentions. -/
+def parts (file : FileId) : Expr → List FExpr
+  | .bin l op a b => (file, .bin l op a b) :: (parts file a ++ parts file b)
+  | .choice l c t f => (file, .choice l c t f) :: (parts file c ++ (parts file t ++ parts file f))
+  | .fn l f args => (file, .fn l f args) :: partsList file args
+  | .cvirt l df d => (file, .cvirt l df d) :: parts df d
+  | .lvirt l df d => (file, .lvirt l df d) :: parts df d
+  | e => [(file, e)]
+def partsList (file : FileId) : List Expr → List FExpr
+  | [] => []
+  | e :: es => parts file e ++ partsList file es
+end
+
+mutual
+/-- user-written: no location in the expression — nor in the definitions it refers to — is
+synthetic (`is_synthetic`: produced by `synthetics.desugar`). -/
+def natural : Expr → Bool
+  | .num l | .boolc l | .enumv l _ | .cother l | .lparam l _ | .lparamArr l | .lphys l _
+  | .builtin l _ => !l.syn
+  | .cphys l _ dl => !l.syn && !dl.syn
+  | .cvirt l _ d | .lvirt l _ d => !l.syn && natural d
+  | .bin l _ a b => !l.syn && (natural a && natural b)
+  | .choice l c t f => !l.syn && (natural c && (natural t && natural f))
+  | .fn l _ args => !l.syn && naturalList args
+def naturalList : List Expr → Bool
+  | [] => true
+  | e :: es => natural e && naturalList es
+end
 
 end Emboss.Types
